@@ -127,6 +127,10 @@ func pointerifyField(originalField reflect.StructField, tmplFieldVal reflect.Val
 		// `TextUnmarshaler`, in which case we'll pointerify
 		// this field and leave its type alone.
 		if IsTextUnmarshalerStruct(ft) {
+			// reflect.StructOf cannot embed a type with methods next to
+			// other fields; an embedded text-unmarshaler is a leaf named
+			// after its type anyway, so un-embed it.
+			sf.Anonymous = false
 			return &sf
 		}
 		// It's a struct without an UnmarshalText method, we
